@@ -213,6 +213,7 @@ def rfc6979(rep, tier):
     for L in lens:
         def run(ctx, L=L):
             ctx.hash_uf = True
+            ctx.exact_os2ip = 64
             priv = SymBytes.var("priv", length=32)
             h = SymBytes.var("hash", length=L)
             return priv, h, sp.deterministic_generate_k(h, priv)
